@@ -49,14 +49,14 @@ class Program:
         names = [self.dt] + self.state + self.control + self.calibration
         return {n: sympy.Symbol(n) for n in names}
 
-    def ui_model(self, container="list", proactive_simplify=False):
+    def ui_model(self, container="list", proactive_simplify=False, cal_container="set"):
         from formak import ui_model
 
         st = self.symtab()
         mk = {"list": list, "set": set, "reversed": lambda l: list(reversed(l))}[container]
         state = mk([st[n] for n in self.state])
         control = mk([st[n] for n in self.control])
-        calibration = set(st[n] for n in self.calibration)
+        calibration = {"set": set, "list": list, "tuple": tuple}[cal_container](st[n] for n in self.calibration)
         items = [(st[n], X.to_sympy(self.update[n], st)) for n in self.update]
         if container == "reversed":
             items = list(reversed(items))
